@@ -64,6 +64,9 @@ impl ServerTask {
                 Err(res)
             }
             x = self.receiver.receive() => {
+                // the session was cancelled wherever it was, e.g. while a response awaited its confirm:
+                // the new connection must find the same state as after a session that ended by itself
+                self.session.reset_cancelled_run();
                 Ok(x?)
             }
         }
